@@ -123,12 +123,12 @@ Proof. exact redirects_never_http_port_partial. Qed.
 Print Assumptions C15_redirect_never_to_http_port_partial.
 
 (* ... which is the case whenever no plain-HTTP declaration carries a tls directive that enables TLS *)
-Theorem C15_redirect_never_to_http_port_partial_decl :
+Theorem C15_redirect_never_to_http_port_decl_partial :
   forall ds init, init_sites ds = Some init -> forallb addr_agrees ds = true ->
   (forall d t, In d ds -> declared_http d = true -> tls_setup (d_tls d) = Some t -> en t = false) ->
   forall c, In c (map after_callback init) -> en (tls c) = true -> port c <> P80.
 Proof. exact pipeline_redirects_never_http_port. Qed.
-Print Assumptions C15_redirect_never_to_http_port_partial_decl.
+Print Assumptions C15_redirect_never_to_http_port_decl_partial.
 
 (* ---- the redirect handler ---- *)
 
